@@ -388,3 +388,51 @@ def run_coro(coro):
         return e.value
     coro.close()
     raise RuntimeError("coroutine suspended although nothing can block")
+
+
+# --------------------------------------------------------------------------------------------------
+# in-memory listener
+
+import contextlib  # noqa: E402
+
+from easynetwork.lowlevel.api_async.transports.abc import AsyncListener  # noqa: E402
+
+
+class MemListener(AsyncListener):
+    """Hands the scripted client transports to the server's handler (one task each in the given task group), then sleeps.
+    More clients can be injected later with connect()."""
+
+    def __init__(self, be, transports=()):
+        self._be = be
+        self.pending = list(transports)
+        self.closed = False
+        self._tg = None
+        self._handler = None
+
+    async def serve(self, handler, task_group=None):
+        async with contextlib.AsyncExitStack() as stack:
+            if task_group is None:
+                task_group = await stack.enter_async_context(self._be.create_task_group())
+            self._tg, self._handler = task_group, handler
+            while self.pending:
+                task_group.start_soon(handler, self.pending.pop(0))
+            await self._be.sleep_forever()
+
+    def connect(self, transport):
+        if self._tg is None:
+            self.pending.append(transport)
+        else:
+            self._tg.start_soon(self._handler, transport)
+
+    async def aclose(self):
+        self.closed = True
+
+    def is_closing(self):
+        return self.closed
+
+    def backend(self):
+        return self._be
+
+    @property
+    def extra_attributes(self):
+        return {}
